@@ -10,6 +10,8 @@ import (
 	"sort"
 	"strings"
 
+	"pgregory.net/rapid"
+
 	"verif/harness"
 )
 
@@ -108,6 +110,85 @@ func Check(t harness.TB, prop, test string, sc Scenario, noListeners bool, want 
 }
 
 func SigOf(cat string) string { return strings.ReplaceAll(cat, "/", "-") }
+
+// PropCfg is a property over generated scenarios: a generator profile, the mismatch categories the property claims, and
+// its non-trivial rule.
+type PropCfg struct {
+	Prop, Test string
+	Opts       func(t *rapid.T) GenOpts
+	Want       func(cat string) bool
+	Nontrivial func(sc Scenario, sr *ScenarioResult) bool
+	Classes    func(sc Scenario, sr *ScenarioResult) []string
+}
+
+func (pc PropCfg) Run(st *harness.Stats) func(*rapid.T) {
+	return func(t *rapid.T) {
+		sc := GenScenario(t, pc.Opts(t))
+		noListeners := rapid.IntRange(0, 7).Draw(t, "noListeners") == 0
+		sr := Check(t, pc.Prop, pc.Test, sc, noListeners, pc.Want)
+		pc.Record(st, sc, sr)
+	}
+}
+
+func (pc PropCfg) Regress(t harness.TB, st *harness.Stats, dir string) {
+	for name, sc := range LoadScenarios(t, dir) {
+		sr := Check(t, pc.Prop, "TestRegress", sc, false, pc.Want)
+		pc.Record(st, sc, sr)
+		st.Sample(name, func() any { return sc.Sample() })
+	}
+}
+
+// Record classifies a finished scenario for the evidence file.
+func (pc PropCfg) Record(st *harness.Stats, sc Scenario, sr *ScenarioResult) {
+	for k, v := range sr.Discards {
+		st.Count("discarded_"+k, v)
+	}
+	for k, v := range sr.Lenient {
+		st.Count("lenient_"+k, v)
+	}
+	st.Count("executions_compared", sr.Execs)
+	nt := pc.Nontrivial(sc, sr)
+	repeated := false
+	seen := map[int]bool{}
+	kinds := map[string]bool{}
+	for _, p := range sc.Stack {
+		if seen[p] {
+			repeated = true
+		}
+		seen[p] = true
+		kinds[sc.Pool[p].Kind] = true
+	}
+	classes := []string{fmt.Sprintf("stack-len=%d", len(sc.Stack))}
+	for k := range kinds {
+		classes = append(classes, "kind="+k)
+	}
+	if repeated {
+		classes = append(classes, "repeated-instance")
+	}
+	if sr.Async {
+		classes = append(classes, "async")
+	}
+	if sr.Cancelled {
+		classes = append(classes, "self-cancel")
+	}
+	for k := range sr.Actions {
+		classes = append(classes, "action="+k)
+	}
+	if pc.Classes != nil {
+		classes = append(classes, pc.Classes(sc, sr)...)
+	}
+	var scripts []string
+	for _, s := range sc.Steps {
+		if s.Op == "exec" {
+			scripts = append(scripts, fmt.Sprint(s.Script))
+		}
+	}
+	key := sc.KindString() + "|" + sr.ActionString() + "|" + strings.Join(scripts, ";")
+	st.Case(key, nt, classes...)
+	if nt {
+		st.Sample(key, func() any { return sc.Sample() })
+	}
+}
 
 // Sample renders a scenario for the evidence file.
 func (sc Scenario) Sample() any {
